@@ -207,12 +207,12 @@ def check_age_loop(res, prop, cm, roles, m, parent, lp, segs, clocks):
     ok = True
     why = None
     exits = parent.loop_exits.get(id(lp), [])
-    # the scan variable: the LV entity tested by AGED
-    lv = None
+    # the scan entity: the loop variable (or the list head itself) whose idle time is tested
+    scan = None
     for s in segs + exits:
         for c in s.conds:
-            if c[0] in ('AGED', 'AGED_INCL') and c[1][0].kind == 'LV':
-                lv = c[1][0].arg
+            if c[0] in ('AGED', 'AGED_INCL') and c[1][0].kind in ('LV', 'FRONT'):
+                scan = c[1][0]
     pos = None
     for i, (k, j) in enumerate(parent.order):
         if k == 'loop' and parent.loops[j][0] is lp:
@@ -224,19 +224,31 @@ def check_age_loop(res, prop, cm, roles, m, parent, lp, segs, clocks):
     L = parent.L
     order = THIS(roles.order)
     part = THIS(roles.part)
-    if lv is None:
+
+    def is_begin(v):
+        return isinstance(v, tuple) and v[0] == 'q' and v[1] in ('begin', 'cbegin') and v[2] == order
+
+    def same_scan(e):
+        return isinstance(e, Ent) and scan is not None and e.kind == scan.kind and (e.kind == 'FRONT' or e.arg == scan.arg)
+
+    def scan_iter(t):
+        """is t the iterator of the scan node"""
+        if scan.kind == 'LV':
+            return isinstance(t, tuple) and t[0] == 'lv' and t[1] == scan.arg
+        return is_begin(t)
+
+    if scan is None:
         ok, why = False, 'aging loop does not test an entry\'s idle time'
-    else:
-        v0 = inits.get(lv)
-        if not (isinstance(v0, tuple) and v0[0] == 'q' and v0[1] in ('begin', 'cbegin') and v0[2] == order):
+    elif scan.kind == 'LV':
+        v0 = inits.get(scan.arg)
+        if not is_begin(v0):
             ok, why = False, 'aging scan does not start at the oldest end of the age list'
-    last_var = None
     for s in segs:
         okf, _ = lift.feasible(s)
-        if not okf:
+        if not okf or scan is None:
             continue
         aged = [c for c in s.conds if c[0] in ('AGED', 'AGED_INCL')]
-        atp = [c for c in s.conds if c[0] == 'AT_PART']
+        atp = [c for c in s.conds if c[0] == 'AT_PART' and same_scan(c[1][0])]
         if s.status == 'continue':
             if not (aged and aged[0][0] == 'AGED' and aged[0][2] is True and aged[0][1][1] in clocks):
                 ok, why = False, 'an entry is aged without the strict test idle time > tick (age + tick < now) on the call\'s clock sample'
@@ -244,39 +256,43 @@ def check_age_loop(res, prop, cm, roles, m, parent, lp, segs, clocks):
             if not (atp and atp[0][2] is False):
                 ok, why = False, 'aging iteration not guarded by "scan position is a used node"'
             st = s.effs('STAMP')
-            if not (len(st) == 1 and st[0].val in clocks and st[0].ent.kind == 'LV' and st[0].ent.arg == lv):
+            if not (len(st) == 1 and st[0].val in clocks and same_scan(st[0].ent)):
                 ok, why = False, 'aged entry\'s idle timer is not restarted with the call\'s clock sample'
             adds = [e for e in s.effects if e.kind == 'AUX_ADD' and e.aux == aux]
             dels = [e for e in s.effects if e.kind == 'AUX_DEL' and e.aux == aux]
             bps = [e for e in s.effects if e.kind == 'BACKPTR' and e.field == bp]
             if not (len(adds) == 1 and len(dels) == 1 and len(bps) == 1 and bps[0].val == adds[0].res
-                    and adds[0].ent.kind == 'LV' and adds[0].ent.arg == lv and dels[0].ent.kind == 'LV' and dels[0].ent.arg == lv
+                    and same_scan(adds[0].ent) and same_scan(dels[0].ent) and same_scan(bps[0].ent)
                     and s.effects.index(dels[0]) < s.effects.index(bps[0])):
                 ok, why = False, 'aged entry is not re-filed exactly once under its new count'
             else:
                 key = adds[0].key
-                if not scaled_count(key, lv, roles, bp):
+                if not scaled_count(key, scan, roles, bp, L):
                     ok, why = False, 'new count %s is not (size_t)(count * ratio) of the aged entry' % show(key)
-            # placement: spliced before the previously aged node (initially the partition), scan restarts at begin()
+            # placement: spliced before the previously aged node (initially the partition); the scan continues from begin()
             mv = s.effs('MOVE')
-            loc_w = {e.loc[1]: e.val for e in s.effects if e.kind == 'LOCAL'}
-            restart = loc_w.get(lv)
-            if not (isinstance(restart, tuple) and restart[0] == 'q' and restart[1] in ('begin', 'cbegin') and restart[2] == order):
-                ok, why = False, 'aging scan does not restart from the oldest end after moving an entry'
-            lastv = [n for n, v in loc_w.items() if isinstance(v, tuple) and v[0] == 'lv' and v[1] == lv]
+            loc_w = {e.loc[1]: e.val for e in s.effects if e.kind == 'LOCAL' and e.how != 'decl'}
+            if scan.kind == 'LV':
+                restart = loc_w.get(scan.arg)
+                if not is_begin(restart):
+                    ok, why = False, 'aging scan does not restart from the oldest end after moving an entry'
+            lastv = [n for n, v in loc_w.items() if scan_iter(v)]
             if mv:
                 d = mv[0].dest
                 if not (isinstance(d, tuple) and d[0] == 'lv' and inits.get(d[1]) == ld0(part) and mv[0].nargs == 3
-                        and isinstance(mv[0].node, tuple) and mv[0].node[0] == 'lv' and mv[0].node[1] == lv
-                        and d[1] in lastv):
+                        and scan_iter(mv[0].node) and d[1] in lastv):
                     ok, why = False, 'aged entry is not re-filed at the young end (before the previously aged node, initially the partition)'
             else:
-                eq = [c for c in s.conds if c[0] == 'LV_EQ' and c[2] is True]
+                eq = [c for c in s.conds if (c[0] == 'LV_EQ' and c[2] is True) or
+                      (c[0] == 'IS_FRONT' and c[2] is True and isinstance(c[1][0], Ent) and c[1][0].kind == 'LV' and inits.get(c[1][0].arg) == ld0(part))]
                 if not eq:
                     ok, why = False, 'aged entry stays in place without being the young-end node'
         else:
             if s.effs('STAMP') or s.effs('AUX_ADD'):
                 ok, why = False, 'aging on a path that leaves the loop'
+            fine = (atp and atp[-1][2] is True and not aged) or (aged and aged[0][0] == 'AGED' and aged[0][2] is False)
+            if not fine:
+                ok, why = False, 'aging loop is left for a reason other than reaching the partition or a young entry (%s)' % ' '.join(s.valuation())
     for s in exits:
         aged = [c for c in s.conds if c[0] in ('AGED', 'AGED_INCL')]
         atp = [c for c in s.conds if c[0] == 'AT_PART']
@@ -289,8 +305,8 @@ def check_age_loop(res, prop, cm, roles, m, parent, lp, segs, clocks):
         V(res, prop, 'R-AGE-LOOP', cm, where_of(m, parent), why.split(' %')[0].split(' (')[0], lp.site, why)
 
 
-def scaled_count(key, lv, roles, bp):
-    """(size_t)( (float)count * ratio ) with count = (*lv.m_lfu_position).first, ratio = the configured field"""
+def scaled_count(key, scan, roles, bp, L):
+    """(size_t)( (float)count * ratio ) with count = the scan entry's own stored count, ratio = the configured field"""
     t = key
     casts = 0
     while isinstance(t, tuple) and t[0] == 'cast':
@@ -310,12 +326,17 @@ def scaled_count(key, lv, roles, bp):
             x = x[2]
         return x
     a, b = strip(a), strip(b)
+
+    def is_count(x):
+        if not (is_ld(x) and x[2][0] == 'fld' and x[2][2] == 'first' and x[2][1][0] == 'deref'):
+            return False
+        it = x[2][1][1]
+        if not (is_ld(it) and it[2][0] == 'fld' and it[2][2] == bp):
+            return False
+        e = L.elem_entity(it[2][1])
+        return e.kind == scan.kind and (e.kind == 'FRONT' or e.arg == scan.arg)
     for x, y in ((a, b), (b, a)):
-        is_count = (is_ld(x) and x[2][0] == 'fld' and x[2][2] == 'first' and x[2][1][0] == 'deref' and is_ld(x[2][1][1])
-                    and x[2][1][1][2][0] == 'fld' and x[2][1][1][2][2] == bp and x[2][1][1][2][1][0] == 'deref'
-                    and isinstance(x[2][1][1][2][1][1], tuple) and x[2][1][1][2][1][1][0] == 'lv' and x[2][1][1][2][1][1][1] == lv)
-        is_ratio = is_ld(y) and y[2] == THIS(roles.ratio)
-        if is_count and is_ratio:
+        if is_count(x) and is_ld(y) and y[2] == THIS(roles.ratio):
             return True
     return False
 
